@@ -1,24 +1,47 @@
 """C13 priorities and batching."""
 from vf.runner import Job, fl
-from vf.fp import core_fp, EVT_DTOR
+from vf.fp import core_fp, EVT_DTOR, SRC_DTOR
 
 SRC = ["Lib/core/ctx.c", "Lib/core/evts.c", "Lib/core/ps.c", "Lib/core/mod.c", "Lib/core/main.c",
        "Lib/core/fs/fs_noop.c", "Lib/structs/queue.c", "Lib/structs/stack.c", "Lib/structs/map.c",
        "Lib/structs/list.c", "Lib/structs/bst.c", "Lib/mem/mem.c", "Lib/utils/mem.c"]
 
 META = {
-    "functions": ["ctx.c: push_evt", "ps.c: call_pubsub_cb", "evts.c: m_mod_set_batch_size, m_mod_set_batch_timeout, "
-                  "new_evt, evt_dtor", "mod.c: reset_module, m_mod_is", "queue.c: new/enqueue/len/iterators/clear/free",
-                  "stack.c: peek", "mem.c: m_mem_new/ref/unref", "main.c: mem_dtor"],
-    "stubs": [],
-    "bounds": "",
-    "outside": "",
-    "assumptions": [],
+    "functions": ["ctx.c: push_evt", "ps.c: call_pubsub_cb (delivery/set/fd jobs)", "evts.c: m_mod_set_batch_size, "
+                  "m_mod_set_batch_timeout, new_evt, evt_dtor", "mod.c: m_mod_pause, m_mod_resume, start, stop, reset_module, "
+                  "optional_hook, m_mod_is", "src.c: m_mod_src_register_fd, register_mod_src, create_src (fd jobs)",
+                  "queue.c: new/enqueue/len/iterators/clear/free", "stack.c: peek/clear", "list.c: iterators/clear",
+                  "mem.c: m_mem_new/ref/unref", "main.c: mem_dtor"],
+    "stubs": ["m_ctx() returns the harness' context", "fetch_ms = arbitrary clock", "libmodule_logger = empty variadic",
+              "decision jobs (C13.decide.*, C13.deliver2.*.{norm,tell}.*): call_pubsub_cb = recorder that runs the recording "
+              "handler on a non-empty queue and keeps the queue (the real one runs in every other job)",
+              "set jobs: timer registry (m_mod_src_register_tmr / m_mod_src_deregister_tmr; src.c not linked) = recording "
+              "stubs that accept a valid timer; mod.c:manage_srcs -> 0, mod.c:init_pubsub_fd -> 0, tell_system_pubsub_msg -> 0",
+              "fd jobs: m_bst_insert = recorder of the source block, poll_set_new_evt -> 0",
+              "fs_* = fs_noop.c (as in the default build)"],
+    "bounds": "0..KMAX events already accumulated (KMAX=3 quick, 5 thorough; per-job constant, shaped like direct tells), "
+              "one arrival, or two consecutive arrivals of fixed classes (7 pairs quick, all 49 thorough), per job; batch size over the full size_t, batch timeout "
+              "over the full u64; in the decision jobs the whole 32-bit source flags word (priority bits restricted to the "
+              "combinations registration can produce), the user-pointer class and source/no-source are symbolic, in the "
+              "delivery jobs the class of each arrival is one of 7 per-job constants; setter scripts of NOPS operations "
+              "(3 quick, 4-5 thorough) over set_batch_size/set_batch_timeout/pause/resume with symbolic arguments, followed by "
+              "one normal-priority arrival or by stop+start and the arrival",
+    "outside": "more than KMAX accumulated events or more than two arrivals per run (the decision is a function of the "
+               "count and the settings only, which the unit quantifies over); accumulated events that reference source "
+               "blocks; failing setter calls in the middle of m_mod_set_batch_timeout (timer registration refused, e.g. "
+               "token bucket empty); the timer registry and the poll layer themselves (C09/C03); expiry of the kernel "
+               "timer (the tick is injected as the event the loop would build); allocation failure",
+    "assumptions": ["an event reaches push_evt only for a RUNNING module (recv_events); library timers are registered "
+                    "with M_SRC_INTERNAL and user pointer &mod->batch / &mod->tb (evts.c, mod.c)"],
 }
 
 RECUR = {"m_mem_unref": 3, EVT_DTOR: 2}
 FP = core_fp(mem_dtors=[EVT_DTOR], on_evt=["on_evt"])
 PUSH = fl("push_evt", "ctx.c")
+SET_REMOVE = ["m_ctx", "tell_system_pubsub_msg", fl("manage_srcs", "mod.c"), fl("init_pubsub_fd", "mod.c")]
+SET_DEFS = {"VF_PUSH_EVT": PUSH, "VF_EVT_DTOR": EVT_DTOR, "VF_MANAGE_SRCS": fl("manage_srcs", "mod.c"),
+            "VF_INIT_PUBSUB_FD": fl("init_pubsub_fd", "mod.c")}
+SET_FP = core_fp(mem_dtors=[EVT_DTOR], on_evt=["on_evt"], on_start=["on_start"], on_stop=["on_stop"])
 NATIVE_P = {"sources": [s for s in SRC if s not in ("Lib/core/ctx.c", "Lib/core/evts.c")]}
 
 
@@ -26,18 +49,72 @@ def jobs(tier):
     js = []
     common = dict(sources=SRC, extra_harness=["common/vf_defs.c"], remove=["m_ctx"], fsa=1024, layer="l1",
                   backend="cadical", mem_gb=12)
-    ks = [0, 1, 2, 3] if tier == "quick" else [0, 1, 2, 3, 4]
-    for k in ks:
-        js.append(Job("C13.push.k%d" % k, "l1/c13_push.c",
-                      defines={"K": k, "VF_PUSH_EVT": PUSH, "VF_EVT_DTOR": EVT_DTOR},
-                      unwind=k + 4, unwindset=RECUR, fp=FP, native=NATIVE_P,
-                      symbolic=["source flags word", "source user pointer class", "source present or tell",
+    quick = tier == "quick"
+    ks = [0, 1, 2, 3] if quick else [0, 1, 2, 3, 4, 5]
+    pd = {"VF_PUSH_EVT": PUSH, "VF_EVT_DTOR": EVT_DTOR}
+    # (1) decision table over the whole flags word / user pointer / tell, recorder instead of call_pubsub_cb
+    # (two consecutive fully symbolic arrivals: the SAT back end runs out of the 12 GB cap even with K=0 - measured; two
+    # arrivals are covered per class pair below)
+    for k, narr in [(k, 1) for k in ks]:
+        js.append(Job("C13.decide.k%d" % k, "l1/c13_push.c",
+                      defines=dict(pd, K=k, NARR=narr, VF_RECORDER=None),
+                      unwind=k + narr + 2, unwindset=RECUR, fp=core_fp(mem_dtors=[EVT_DTOR]), native=NATIVE_P,
+                      symbolic=["source flags word (32 bit) of each arrival", "source user pointer class", "source present or tell",
                                 "batch size (size_t)", "batch timeout (u64)", "tokens, burst"],
-                      bounds="accumulated=%d" % k, timeout=900, **common))
+                      bounds="accumulated=%d arrivals=%d" % (k, narr), timeout=900 if quick else 1400,
+                      **dict(common, remove=["m_ctx", "call_pubsub_cb"])))
+    # (2) real delivery path, class of the arrival(s) fixed per job
+    CLS = ["low", "norm", "high", "fd", "tell", "batchtick", "tbtick"]
+    for k in ks:
+        for c in range(7):
+            js.append(Job("C13.deliver.k%d.%s" % (k, CLS[c]), "l1/c13_push.c", defines=dict(pd, K=k, VF_CLASS=c),
+                          unwind=k + 3, unwindset=RECUR, fp=FP, native=NATIVE_P,
+                          symbolic=["batch size (size_t)", "batch timeout (u64)", "tokens, burst", "clock"],
+                          bounds="accumulated=%d class=%s" % (k, CLS[c]), timeout=900, **common))
+    pairs = [(0, 2), (0, 1), (1, 5), (0, 6), (1, 1), (0, 5), (4, 0)] if quick else [(a, b) for a in range(7) for b in range(7)]
+    for k in ([1] if quick else [0, 1, 2, 3]):
+        for a, b in pairs:
+            # a first arrival whose outcome depends on the symbolic batch size (norm, tell) leaves a symbolic heap shape:
+            # the second arrival is then only tractable with the recorder (measured: > 12 GB with the real release)
+            rec = a in (1, 4)
+            js.append(Job("C13.deliver2.k%d.%s.%s" % (k, CLS[a], CLS[b]), "l1/c13_push.c",
+                          defines=dict(pd, K=k, VF_CLASS=a, VF_CLASS2=b, **({"VF_RECORDER": None} if rec else {})),
+                          unwind=k + 4, unwindset=RECUR, fp=core_fp(mem_dtors=[EVT_DTOR]) if rec else FP, native=NATIVE_P,
+                          symbolic=["batch size (size_t)", "batch timeout (u64)", "tokens, burst", "clock"],
+                          bounds="accumulated=%d classes=%s,%s%s" % (k, CLS[a], CLS[b], " (recorder)" if rec else ""),
+                          timeout=900, **dict(common, remove=["m_ctx", "call_pubsub_cb"] if rec else ["m_ctx"])))
+    # (3) descriptor sources are always high priority (src.c registration path)
+    fdflags = {"unspec": "0", "high": "M_SRC_PRIO_HIGH", "high_autoclose_oneshot": "(M_SRC_PRIO_HIGH|M_SRC_FD_AUTOCLOSE|M_SRC_ONESHOT)",
+               "unspec_autofree": "M_SRC_AUTOFREE"}
+    for nm in (["unspec", "high_autoclose_oneshot"] if quick else list(fdflags)):
+        js.append(Job("C13.fd.k1.%s" % nm, "l1/c13_fd.c", defines=dict(pd, K=1, VF_FLAGS=fdflags[nm]),
+                      unwind=5, unwindset=RECUR, fp=core_fp(mem_dtors=[EVT_DTOR, SRC_DTOR], on_evt=["on_evt"]),
+                      symbolic=["batch size (size_t)", "batch timeout (u64)", "clock"],
+                      bounds="accumulated=1 flags=%s fd=7" % nm, timeout=900,
+                      **dict(common, sources=SRC + ["Lib/core/src.c"], remove=["m_ctx", "m_bst_insert"])))
+    sets = [(1, 0, 3), (2, 0, 3), (1, 1, 3)] if quick else \
+           [(0, 0, 4), (1, 0, 4), (2, 0, 4), (3, 0, 4), (1, 1, 4), (2, 1, 4), (1, 0, 5)]
+    for k, fin, nops in sets:
+        js.append(Job("C13.set.k%d.n%d.%s" % (k, nops, "arrive" if fin == 0 else "stopstart"), "l1/c13_set.c",
+                      defines=dict(SET_DEFS, K=k, NOPS=nops, VF_FINAL=fin),
+                      unwind=max(k, nops) + 3, unwindset=RECUR, fp=SET_FP,
+                      symbolic=["op[0..NOPS) over set_batch_size/set_batch_timeout/pause/resume", "batch size arguments (size_t)",
+                                "timeout arguments (u64)", "initial state RUNNING/PAUSED", "tokens"],
+                      bounds="NOPS=%d accumulated=%d" % (nops, k), timeout=900 if quick else 1400,
+                      **dict(common, remove=SET_REMOVE)))
     return js
 
 
 MANIFEST = {
-    "text": "",
-    "note": "",
+    "text": "Bounded model checking of the real push_evt (ctx.c) against a decision table written from the property: for "
+            "0..KMAX pending events, every batch size in size_t, every batch timeout, every source flags word / library "
+            "timer kind / tell, the handler is invoked exactly when a trigger holds, once, with all pending events in "
+            "arrival order, otherwise the event is retained in order; library timer ticks never reach the handler; "
+            "real call_pubsub_cb/evt_dtor in the per-class delivery jobs (one and two arrivals); real "
+            "m_mod_set_batch_size/m_mod_set_batch_timeout/pause/resume scripts against a model of the configured settings; "
+            "real stop()/reset_module()/start() discard pending events and reset the settings; descriptor sources registered "
+            "through m_mod_src_register_fd are delivered at once under every batch setting",
+    "note": "m_ctx(), clock, timer registry, poll layer and (in the fully symbolic decision jobs) call_pubsub_cb are stubs "
+            "listed in the evidence; number of pending events bounded by KMAX and at most two arrivals per run; timer "
+            "expiry is represented by the tick event the loop builds, kernel timing is outside the claim",
 }
